@@ -17,6 +17,17 @@ Granularity: API calls between quiescent points. The start sequence of
                NO supervisor event (`notify_on_cancel` is false), unlink, status Stopped, waiters
                notified; the port set is dropped, which closes and flushes the mailbox.
 
+Thread-local flavour (`thread_local/inner.rs`, `ThreadLocalActorRuntime::{spawn, spawn_linked,
+spawn_instant, spawn_linked_instant}`): the same `ActorLifecycleGuard`, but `start` links to the
+supervisor SYNCHRONOUSLY, before the builder is handed to the spawner thread and long before
+`pre_start` runs: a refused link fails the spawn at once (pre_start never runs), and while the
+actor is starting it already sits in the supervisor's child set — so a supervisor that exits
+kills it ("Actor killed during startup": a failed start). There are two await points in
+`start` (`spawner.spawn(builder)`: the request still queued in the spawner, or `pre_start`
+running on the spawner's thread); dropping the spawn future at either aborts the start-up task
+(`AbortOnDropHandle`) and runs the same guard cleanup. The successful path is as before (the
+link already exists).
+
 Import-free.
 -/
 
@@ -61,6 +72,7 @@ inductive Outcome | ok | err | panic
 
 inductive Op where
   | begin (name : Option Nat) (sup : Option Nat)     -- start a spawn; runs up to pre_start's first gate
+  | beginTL (name : Option Nat) (sup : Option Nat)   -- the same for a thread-local actor: links at once
   | join (a g : Nat) | monitor (a g : Nat)           -- side effects of a's pre_start
   | selfsend (a : Nat)                               -- pre_start casts to itself
   | spawnChild (a : Nat)                             -- pre_start spawns a linked child (which starts at once)
@@ -104,15 +116,24 @@ def childrenOf (s : S) (a : Nat) : List Nat :=
   (List.range s.actors.length).filter (fun c =>
     match s.actors[c]? with | some x => x.linked && x.sup == some a | none => false)
 
+def isStarting (s : S) (a : Nat) : Bool :=
+  match s.actors[a]? with | some x => x.phase == .starting | none => false
+
+/-- a killed child: a running one just exits; one that was still starting (only thread-local
+actors are linked that early) has failed its start -/
+def killChild (s : S) (c : Nat) : S :=
+  if isStarting s c then setActor (release s c) c (fun x => { x with failedStart := true })
+  else release s c
+
 /-- `terminate`: kill the whole subtree below `a` (fuel = number of actors). Killed running
 descendants report `ActorTerminated` ("killed") to their supervisor — which is exiting and
-no longer records anything. -/
+no longer records anything; killed starting descendants report nothing at all. -/
 def killSubtree : Nat → S → List Nat → S
   | 0, s, _ => s
   | _, s, [] => s
   | fuel + 1, s, c :: rest =>
     let kids := childrenOf s c
-    killSubtree fuel (release s c) (kids ++ rest)
+    killSubtree fuel (killChild s c) (kids ++ rest)
 
 /-- the failed-start path: guard cleanup without a supervisor event -/
 def failStart (s : S) (a : Nat) : S :=
@@ -150,8 +171,13 @@ def supAccepts (s : S) (p : Nat) : Bool :=
   | some x => x.phase != .stopped     -- running or starting (`< Draining`)
   | none => false
 
-def isStarting (s : S) (a : Nat) : Bool :=
-  match s.actors[a]? with | some x => x.phase == .starting | none => false
+/-- the requested name is taken -/
+def clashes (s : S) (name : Option Nat) : Bool :=
+  match name with | some n => (lookupName s n).isSome | none => false
+
+/-- the requested supervisor refuses the link (it is shutting down) -/
+def refusedBy (s : S) (sup : Option Nat) : Bool :=
+  match sup with | some p => !supAccepts s p | none => false
 
 def step (s : S) : Op → S
   | .begin name sup =>
@@ -163,6 +189,16 @@ def step (s : S) : Op → S
       { s with actors := s.actors ++ [⟨none, none, false, .stopped, true, [], [], [], 0, 0, false, []⟩] }
     else
       { s with actors := s.actors ++ [⟨name, sup, false, .starting, false, [], [], [], 0, 0, false, []⟩],
+               names := match name with | some n => s.names ++ [(n, a)] | none => s.names }
+  | .beginTL name sup =>
+    let a := s.actors.length
+    if clashes s name then
+      { s with actors := s.actors ++ [⟨none, none, false, .stopped, true, [], [], [], 0, 0, false, []⟩] }
+    else if refusedBy s sup then
+      -- "Supervisor is shutting down": the guard cleans up before `pre_start` ever ran
+      { s with actors := s.actors ++ [⟨name, sup, false, .stopped, true, [], [], [], 0, 0, false, []⟩] }
+    else
+      { s with actors := s.actors ++ [⟨name, sup, sup.isSome, .starting, false, [], [], [], 0, 0, false, []⟩],
                names := match name with | some n => s.names ++ [(n, a)] | none => s.names }
   | .join a g => if isStarting s a then setActor s a (fun x => if x.groups.contains g then x else { x with groups := x.groups ++ [g] }) else s
   | .monitor a g => if isStarting s a then setActor s a (fun x => if x.monitors.contains g then x else { x with monitors := x.monitors ++ [g] }) else s
